@@ -419,10 +419,12 @@ def reify_unresolved(ctx):
             r = ci.methods.get("render") if ci else None
             if r is None:
                 continue
+            from ..flow import Taint
+            resolved = Taint(r, lambda n_: isinstance(n_, ast.Call) and isinstance(n_.func, ast.Attribute) and n_.func.attr == "value", through_containers=False)
             for st in stmts_in(r.body):
                 if isinstance(st, ast.Assign) and len(st.targets) == 1:
                     ch = attr_chain(st.targets[0])
-                    if ch and len(ch) == 2 and ch[0] == "self" and any(isinstance(c_, ast.Call) and isinstance(c_.func, ast.Attribute) and c_.func.attr == "value" for c_ in ast.walk(st.value)):
+                    if ch and len(ch) == 2 and ch[0] == "self" and resolved.derived(st.value):
                         out.add(ch[1])
         return out
 
